@@ -21,7 +21,7 @@ var c07Qty = []float64{1, -2, 0.5}
 func dec(s string) *big.Rat {
 	r, ok := new(big.Rat).SetString(strings.TrimSpace(s))
 	if !ok {
-		hfail("cannot read number %q from a report", s)
+		ofail("unreadable-number-in-a-report", "a report shows %q where a number is expected", s)
 	}
 	return r
 }
